@@ -22,7 +22,7 @@ pub fn g_found(d: &FoundDependency) -> String {
 }
 
 fn gen_field(rng: &mut Rng, dirty: bool) -> String {
-	let clean: [&str; 14] = ["org.example", "a", "foo-bar", "1.0", "1.2.3-SNAPSHOT", "", "jar", "ü", "x y", "@", " @", "漢字", "a/b", "sources"];
+	let clean: [&str; 19] = ["org.example", "a", "foo-bar", "1.0", "1.2.3-SNAPSHOT", "", "jar", "ü", "x y", "@", " @", "漢字", "a/b", "sources", "war", "pom", "test-jar", "compile", "@ "];
 	let bad: [&str; 6] = [":", "a:b", " @ ", "x @ y", "::", " @ :"];
 	if dirty && rng.chance(1, 3) { rng.pick(&bad).to_string() } else { rng.pick(&clean).to_string() }
 }
